@@ -847,3 +847,78 @@ pub fn fallback_values(prog: &asp::Program, interps: &[&Interp], extra: &[Value]
     all.insert(Value::Sym("zz_fresh2".into()));
     all.into_iter().collect()
 }
+
+impl<'a> Ref<'a> {
+    /// Extents of the private predicates of `prog` as determined by its rules from the public
+    /// part `base` (stratum-wise; requires absence of private recursion). None: undecided.
+    pub fn determine_privates(&self, prog: &asp::Program, privates: &[(String, usize)], base: &Interp, fallback: &[Value]) -> Option<AtomSet> {
+        let is_priv = |p: &asp::Predicate| privates.iter().any(|(n, a)| *n == p.symbol && *a == p.arity);
+        // dependency order among privates
+        let mut remaining: Vec<(String, usize)> = privates.to_vec();
+        let mut order: Vec<(String, usize)> = Vec::new();
+        while !remaining.is_empty() {
+            let before = remaining.len();
+            let mut next = Vec::new();
+            for p in remaining.iter() {
+                let depends_on_remaining = prog.rules.iter().any(|r| match r.head.predicate() {
+                    Some(h) if h.symbol == p.0 && h.arity == p.1 => r.body.predicates().iter().any(|q| is_priv(q) && remaining.iter().any(|(n, a)| *n == q.symbol && *a == q.arity) && !(q.symbol == p.0 && q.arity == p.1 && false)),
+                    _ => false,
+                });
+                if depends_on_remaining {
+                    next.push(p.clone());
+                } else {
+                    order.push(p.clone());
+                }
+            }
+            if next.len() == before {
+                return None; // cycle
+            }
+            remaining = next;
+        }
+        let mut cur = base.clone();
+        for (n, a) in privates {
+            cur.preds.insert((n.clone(), *a), Ext::default());
+        }
+        let mut out = AtomSet::new();
+        for (pn, pa) in &order {
+            let mut ext: BTreeSet<Vec<Value>> = BTreeSet::new();
+            for r in &prog.rules {
+                let asp::Head::Basic(h) = &r.head else {
+                    if let asp::Head::Choice(h) = &r.head {
+                        if h.predicate_symbol == *pn && h.terms.len() == *pa {
+                            return None;
+                        }
+                    }
+                    continue;
+                };
+                if h.predicate_symbol != *pn || h.terms.len() != *pa {
+                    continue;
+                }
+                let vars: Vec<String> = r.variables().into_iter().map(|v| v.0).collect();
+                let (thetas, complete) = self.enumerate(&r.body, &vars, &cur, &cur, fallback);
+                if !complete {
+                    return None;
+                }
+                for th in &thetas {
+                    match self.body_holds(&r.body, &cur, &cur, th) {
+                        Err(_) => return None,
+                        Ok(false) => {}
+                        Ok(true) => {
+                            for tp in self.tuples(&h.terms, th).ok()? {
+                                ext.insert(tp);
+                            }
+                        }
+                    }
+                }
+                if ext.len() > 500 {
+                    return None;
+                }
+            }
+            for tp in &ext {
+                out.insert((pn.clone(), tp.clone()));
+            }
+            cur.preds.insert((pn.clone(), *pa), Ext { exc: ext, default: false });
+        }
+        Some(out)
+    }
+}
